@@ -2415,7 +2415,7 @@ Section FudFromDel.
     intros I Hy0 Hr Ho Eg Hnr. pose proof (i_T63 I) as HT.
     unfold forgetUnneededDel. rewrite Hnr.
     rewrite DetectRow_gpos by (try assumption; lia).
-    change 300%nat with (S 299).
+    change 300%nat with (S 299). generalize 299%nat. intros f.
     cbn [fud_loop].
     destruct (N.ltb_spec (ms_total m) r) as [Lt|_]; [lia|].
     rewrite Parent_gpos by assumption. rewrite <- Eg.
@@ -2424,7 +2424,7 @@ Section FudFromDel.
       exact (ng_isroot H HO s (ms_total m) (pi_n63 H HO s Rc Rn m I) (pi_Tlo H HO s Rc Rn m I) HT y0 Hy0). }
     rewrite Eroot. destruct (nroot y0) eqn:Ry; [destruct m; exact I|].
     pose proof (prunePosition_Inv2 H HO s Rc Rn m y0 I Hy0 Ry) as I5.
-    exact (fud_node_Inv2 H HO s Rc Rn 299 (add8 r 1) _ y0 I5 Hy0 Ry).
+    exact (fud_node_Inv2 H HO s Rc Rn f (add8 r 1) _ y0 I5 Hy0 Ry).
   Qed.
 End FudFromDel.
 
@@ -3237,12 +3237,12 @@ Section StepInner.
   Theorem st_fud :
     Inv2 HO s' Rc Rn' (mkM (forgetUnneededDel HO n T (gp T (nrow x) (noff x)) nd4) ca3 n T full).
   Proof.
-    pose proof st_Inv as I4.
+    pose proof st_Inv as I4. set (N4 := nd4) in *. clearbody N4.
     assert (Hy0 : In (upn H rd fl sb) lay') by (apply ref_sb; [exact Hsb|rewrite Esb; apply under_refl]).
     destruct (coord_eq _ _ _ upn_coord_sb) as [Er0 Eo0].
     assert (Eg0 : gp T (nrow (upn H rd fl sb)) (noff (upn H rd fl sb)) = gpos T (rdN + 1) (od / 2)).
     { rewrite Er0, Eo0. unfold gp. f_equal. lia. }
-    exact (fud_from_del H HO s' Rc Rn' (mkM nd4 ca3 n T full) rdN od (upn H rd fl sb)
+    exact (fud_from_del H HO s' Rc Rn' (mkM N4 ca3 n T full) rdN od (upn H rd fl sb)
              I4 Hy0 si_rd si_od Eg0 si_notroot).
   Qed.
 End StepInner.
